@@ -181,8 +181,58 @@ def _unjson(d):
     return c
 
 
+def evaluated_sets(ctx, rep):
+    """The sets actually handed on for evaluation (initial design, each poll step): the points the target was called at, per step, must be
+    pairwise distinct (after rounding to half the mesh tolerance), inside the internal box and feasible - whatever happened between
+    filtering and evaluation."""
+    from fractions import Fraction
+    from . import runlevel
+    traces = runlevel.get_pool(ctx)
+    nsets = 0
+    for t in traces:
+        if not t["constructed"] or t["hdr"] is None:
+            continue
+        sp = t["spec"]
+        tag = runlevel.spec_tag(sp)
+        case = {"kind": "filter_run", "spec": sp, "event_index": -1}
+        half = Fraction(t["hdr"]["tol_mesh"]) / 2
+        lb, ub = t["hdr"]["lb"], t["hdr"]["ub"]
+        infeasible = t["final"].get("cons_at_calls") if t.get("final") else None
+        groups, cur = {}, None
+        for k, e in t["events"]:
+            if k == "CALL" and "exc" not in e and e["rec"] and e["k"] > 0:
+                if e["phase"] == "init":
+                    groups.setdefault("initial design", []).append(e)
+                elif e["phase"] == "poll" and cur is not None:
+                    cur.append(e)
+            elif k == "DIRS":
+                cur = []
+                groups[f"poll step #{len(groups)}"] = cur
+            elif k == "POLL":
+                cur = None
+        for name, calls in groups.items():
+            if not calls:
+                continue
+            nsets += 1
+            keys = [tuple(round(Fraction(v) / half) for v in c["u"]) for c in calls]
+            if len(set(keys)) != len(keys):
+                rep.violation("distinct", "bads.py:" + ("_init_mesh_" if name == "initial design" else "_poll_step_"),
+                              f"{name}: two of the {len(calls)} evaluated points coincide within half the mesh tolerance; {tag}", case)
+                break
+            if any(not (l <= v <= u) for c in calls for v, l, u in zip(c["u"], lb, ub)):
+                rep.violation("in_box", "bads.py:" + ("_init_mesh_" if name == "initial design" else "_poll_step_"), f"{name}: an evaluated point lies outside the internal box; {tag}", case)
+                break
+            if infeasible is not None and any(infeasible[c["k"]] for c in calls if c["k"] < len(infeasible)):
+                rep.violation("feasible", "bads.py:" + ("_init_mesh_" if name == "initial design" else "_poll_step_"), f"{name}: an evaluated point violates the non-box constraint; {tag}", case)
+                break
+    return nsets
+
+
 def run(ctx):
     rep = Report()
+    from . import runlevel as _rl, c02 as _c02
+    _rl.with_extra(ctx, "c02coarse", lambda: _c02.coarse_specs(ctx))
+    nsets = evaluated_sets(ctx, rep)
     cases = gen_cases(ctx)
     n, nt, hist = check_cases(ctx, cases, rep)
     kinds = {}
@@ -204,7 +254,7 @@ def run(ctx):
         "samples": [_jsonable(c) for c in cases[:: max(1, len(cases) // 4)][:4]],
         "input_kinds": kinds,
         "clause_failures_on_impl": hist,
-        "traces_validated_against_impl": run_cov.get("runs", 0),
+        "traces_validated_against_impl": run_cov.get("runs", 0), "evaluated_sets_checked": nsets,
         "run_level": run_cov,
         "exhaustive": not ctx.quick,
     }
@@ -221,6 +271,7 @@ def replay(ctx, data):
     else:
         from . import runlevel
         runlevel.replay_filter_run(ctx, rep, case)
+        evaluated_sets(ctx, rep)
     return rep
 
 
